@@ -74,7 +74,7 @@ Section Invariant.
       destruct (inv_stack_cons _ Hs) as (f & r & ->).
       destruct tk as [nm fs attrs| |txt]; cbn [xstep s_stack].
       + set (g := mkF ElementNode nm fs (map attr_node attrs)).
-        unfold push. cbn [s_stack s_stream].
+        rewrite xstart_eq. fold g.
         rewrite (cc_fresh pm g f r Hs eq_refl (attrs_nonelem attrs)).
         left. split; [reflexivity|]. cbn [s_stream s_stack].
         destruct (pm (chain_of (f :: r) ++ [fname g])) eqn:Hp.
@@ -89,7 +89,8 @@ Section Invariant.
     - (* a candidate is open *)
       destruct Hs as (inner & g & f & r & -> & -> & HI & Hg & Hin & Hp).
       destruct tk as [nm fs attrs| |txt]; cbn [xstep s_stack].
-      + destruct inner as [|h inner]; cbn [app]; unfold push; cbn [s_stack s_stream candidate_check];
+      + rewrite xstart_eq.
+        destruct inner as [|h inner]; cbn [app]; cbn [s_stack s_stream candidate_check];
           left; (split; [reflexivity|]); cbn [s_stream s_stack].
         * exists [mkF ElementNode nm fs (map attr_node attrs)], g, f, r. repeat split; auto.
           constructor; [reflexivity|constructor].
